@@ -35,11 +35,94 @@ def sieve(n):
     return [i for i in range(n + 1) if s[i]]
 
 
+def _side(e, env):
+    """expression -> (atom, const) with atom in {'n','d','q=n//d','d*d', other text}"""
+    if isinstance(e, ast.BinOp) and isinstance(e.op, (ast.Add, ast.Sub)) and isinstance(e.right, ast.Constant) and isinstance(e.right.value, int):
+        a, c = _side(e.left, env)
+        return a, c + (e.right.value if isinstance(e.op, ast.Add) else -e.right.value)
+    if isinstance(e, ast.BinOp) and isinstance(e.op, ast.Add) and isinstance(e.left, ast.Constant) and isinstance(e.left.value, int):
+        a, c = _side(e.right, env)
+        return a, c + e.left.value
+    if isinstance(e, ast.Name):
+        return env.get(e.id, e.id), 0
+    t = norm_text(e)
+    if t in ("d * d", "d ** 2", "pow(d, 2)"):
+        return "d*d", 0
+    if t == "n // d":
+        return "n//d", 0
+    return t, 0
+
+
+def _strict(test, env):
+    """comparison -> (L, R, c) meaning L < R + c over the integers, or None"""
+    neg = False
+    while isinstance(test, ast.UnaryOp) and isinstance(test.op, ast.Not):
+        neg = not neg
+        test = test.operand
+    if not (isinstance(test, ast.Compare) and len(test.ops) == 1):
+        return None
+    (l, lc), (r, rc) = _side(test.left, env), _side(test.comparators[0], env)
+    op = type(test.ops[0])
+    if neg:
+        op = {ast.Lt: ast.GtE, ast.GtE: ast.Lt, ast.Gt: ast.LtE, ast.LtE: ast.Gt}.get(op)
+    if op is ast.Lt:      # l + lc < r + rc
+        return l, r, rc - lc
+    if op is ast.LtE:     # l + lc <= r + rc  <=>  l < r + rc - lc + 1
+        return l, r, rc - lc + 1
+    if op is ast.Gt:
+        return r, l, lc - rc
+    if op is ast.GtE:
+        return r, l, lc - rc + 1
+    return None
+
+
+def _negate(st):
+    # not (L < R + c)  <=>  R < L - c + 1
+    return (st[1], st[0], 1 - st[2]) if st else None
+
+
+STOP_FORMS = {("n//d", "d", 0), ("n", "d*d", 0)}     # both say d*d > n for d >= 1
+
+
+def _search_stop(fnode):
+    """find the open-ended divisor search (the loop that steps d by 2) and normalise its exit
+    condition; accepted: any comparison equivalent over the integers to n // d < d or
+    n < d*d, as `while`-test (negated) or as an `if ...: break` in the loop body"""
+    for lp in ast.walk(fnode):
+        if not isinstance(lp, ast.While):
+            continue
+        step = [norm_text(x) for x in lp.body if isinstance(x, (ast.Assign, ast.AugAssign)) and norm_text(x).split(" ")[0] == "d"]
+        if not step:
+            continue
+        if step[0] not in ("d = d + 2", "d += 2", "d = 2 + d"):
+            return False, "the candidate divisor is advanced by `%s`" % step[0]
+        env = {}
+        exits = []
+        if norm_text(lp.test) not in ("1", "True"):
+            exits.append(_negate(_strict(lp.test, env)))
+        for x in lp.body:
+            if isinstance(x, ast.Assign) and isinstance(x.value, ast.Call) and norm_text(x.value) == "divmod(n, d)" and isinstance(x.targets[0], ast.Tuple):
+                env[x.targets[0].elts[0].id] = "n//d"
+            elif isinstance(x, ast.Assign) and norm_text(x.value) == "n // d" and isinstance(x.targets[0], ast.Name):
+                env[x.targets[0].id] = "n//d"
+            elif isinstance(x, ast.Assign) and norm_text(x.value) in ("d * d", "d ** 2") and isinstance(x.targets[0], ast.Name):
+                env[x.targets[0].id] = "d*d"
+            elif isinstance(x, ast.If) and any(isinstance(y, ast.Break) for y in x.body):
+                exits.append(_strict(x.test, env))
+        if len(exits) != 1:
+            return False, "%d exit condition(s) in the search loop" % len(exits)
+        if exits[0] in STOP_FORMS:
+            return True, "stop test normalises to %s < %s" % exits[0][:2]
+        return False, "stop test normalises to %s, which is not equivalent to d*d > n" % (("%s < %s + %d" % exits[0]) if exits[0] else "an unrecognised form")
+    return False, "no loop stepping the candidate divisor d found"
+
+
 def run(chk):
     chk.rule("R16.1", "smallprimes = all primes up to its maximum, ascending, >= 40 entries")
     chk.rule("R16.2", "small branch by table membership; prefilter rejects only on a non-trivial gcd")
     chk.rule("R16.3", ">= 12 rounds with bases smallprimes[i] for bit lengths <= 64; False only on a witness")
     chk.rule("R16.4", "next_prime candidate walk")
+    chk.rule("R16.6", "factorization: search loop stop condition and small cases")
     chk.rule("R16.5", "gcd / lcm: both calling conventions reduce with the same binary function")
     chk.configs = ["py3"]
     W = world()
@@ -141,6 +224,15 @@ def run(chk):
     chk.ob("R16.3", "False is returned only on a witness: y == 1 after a squaring, or y != n-1 after the squarings; y starts as a^r mod n", okw, loc=f.qname, key="C16|R16.3|witness", detail="the Miller-Rabin loop returns False for another reason / has another shape")
     last = f.node.body[-1]
     chk.ob("R16.3", "is_prime ends with `return True`", norm_text(last) == "return True", loc=f.qname, key="C16|R16.3|true", detail="fall-through result is %s" % norm_text(last))
+    # ---- R16.6 factorization: the divisor search stops only once d*d > n
+    ff = p.func("numbertheory:factorization")
+    okf, whyf = _search_stop(ff.node)
+    chk.ob("R16.6", "factorization: the odd-divisor search advances by 2 and stops exactly when d*d > n (q < d for q = n // d)", okf, loc=ff.qname, key="C16|R16.6|stop", detail="factorization's divisor search: %s" % whyf)
+    small = [n_ for n_ in ast.walk(ff.node) if isinstance(n_, ast.For) and norm_text(n_.iter) == "smallprimes"]
+    oks2 = len(small) == 1 and any(isinstance(x, ast.If) and norm_text(x.test) == "d > n" and isinstance(x.body[0], ast.Break) for x in small[0].body)
+    chk.ob("R16.6", "factorization: small primes tried in table order, stopping when d > n", oks2, loc=ff.qname, key="C16|R16.6|small", detail="the small-prime phase of factorization changed shape")
+    lt2 = any(isinstance(x, ast.If) and norm_text(x.test) == "n < 2" and norm_text(x.body[0]) == "return []" for x in ff.node.body)
+    chk.ob("R16.6", "factorization(n < 2) == []", lt2, loc=ff.qname, key="C16|R16.6|lt2", detail="n < 2 is not answered with the empty list")
     # ---- R16.4
     g = p.func("numbertheory:next_prime")
     a = g.params[0]
